@@ -45,6 +45,8 @@ def _report():
                  "(\"Unlock::unlock_unchecked is an unsafe fn\", sb (trait_fn_unsafe traits \"Unlock\" \"unlock_unchecked\")); "
                  "(\"Write is #[non_exhaustive] #[repr(transparent)]\", sb (write_struct_ok decls)); "
                  "(\"lock types keep their cell private\", sb (forallb (lock_struct_ok decls) lock_names))]"),
+        ("private_write_fns", "map (fun f => (fq f, fs_vis f ++ (if fs_unsafe f then \" unsafe\" else \" safe\"))) "
+                              "(filter (fun f => yields_write (fs_ret f) && negb (is_public f)) write_fns)"),
         ("unknown", "map (fun s => (s, \"\")) GenWrite.unknown_items"),
     ]
     return sf.model_report("c13_report", evals)
@@ -57,7 +59,7 @@ def run(chk, tier, seed):
     chk.checker_cmd = "translator-api -> coq_makefile/make Props/C13.vo (full .vo) + Print Assumptions; rustc + run of /verif/probes/c13"
     chk.trusted += [
         "Coq 8.16.1 kernel incl. vm_compute",
-        "translator-api (syn 2 + local macro_rules expander): Write constructors/projections, DerefWrite/IndexWrite/Unlock/Collect impl headers, "
+        "translator-api (syn 2 + local macro_rules expander): Write constructors/projections (with visibility; body facts of private helpers inlined into their callers when the call resolves unambiguously), DerefWrite/IndexWrite/Unlock/Collect impl headers, "
         "lock.rs functions (incl. make_lock_wrapper! expansion), field!/unlock! macro shape; fails closed",
         "coq-api/ModelWrite.v: the calculus itself (our reading of which safe expressions yield a Write), the ownership-class table "
         "(unknown constructor = Shared) and `covered` (composition with the C06 barrier theorems is the coordinator's)",
@@ -74,7 +76,9 @@ def run(chk, tier, seed):
             okr, rep, raw = _report()
             chk.correspondence("C13: model report evaluated", okr, raw[-1500:] if not okr else "")
             sf.build_and_audit(chk, "Props/C13.v", THEOREMS)
-    for k in ("ctors", "projs", "deref", "index", "unlock", "cells", "side"):
+    # Write-returning functions that are not callable from outside the crate (private / pub(crate)): not constructors
+    # of the calculus; the public functions calling them are judged with the helpers' bodies inlined by the translator
+    for k in ("ctors", "projs", "deref", "index", "unlock", "cells", "side", "private_write_fns"):
         chk.cov["model_" + k] = rep.get(k, [])
     chk.evaluations += sum(len(v) for v in rep.values())
 
